@@ -358,6 +358,54 @@ def x_create_memory_object_stream(I, args, kwargs, node):
     return V.VTuple([E.make_write_stream(I, "mem_s"), E.make_read_stream(I, "mem_r")])
 
 
+INHERITED = ("HOME", "LOGNAME", "PATH", "SHELL", "TERM", "USER")
+
+
+def x_environ_get(I, args, kwargs, node):
+    """os.environ.get(name[, default]): the host environment is an arbitrary map from names to strings"""
+    env = I.ghost.get("host_env")
+    if env is None:
+        env = I.fresh("host_env")
+        I.assume(z3.And(V.is_dict(env), Val.dsize(env) >= 0))
+        I.ghost["host_env"] = env
+    k = z3.simplify(args[0])
+    if V.ctor_name(k) != "str":
+        raise Unsupported("os.environ.get with a non-str name", node)
+    ks = Val.s(k)
+    val = z3.Select(Val.dvals(env), ks)
+    I.assume(z3.Implies(z3.Select(Val.dkeys(env), ks), z3.And(V.is_str(val), Val.dsize(env) >= 1)))
+    return z3.If(z3.Select(Val.dkeys(env), ks), val, args[1] if len(args) > 1 else V.NONE)
+
+
+class DefaultEnvironment(Contract):
+    """get_default_environment(): exactly the inherited names that are set, non-empty and not exported shell functions,
+    each with the host's value (what a server configured without `env` is launched with)"""
+    key = f"{ENVMOD}::get_default_environment"
+    prop = "C20"
+    covers = ("return",)
+
+    def setup(self, I):
+        env = I.fresh("host_env")
+        I.assume(z3.And(V.is_dict(env), Val.dsize(env) >= 0))
+        I.ghost["host_env"] = env
+        self.env = env
+        return [], {}
+
+    def post(self, I, result):
+        conds, count = [V.is_dict(result)], z3.IntVal(0)
+        for n in INHERITED:
+            k = z3.StringVal(n)
+            hv = z3.Select(Val.dvals(self.env), k)
+            want = z3.And(z3.Select(Val.dkeys(self.env), k), V.is_str(hv), z3.Length(Val.s(hv)) > 0,
+                          z3.Not(z3.PrefixOf(z3.StringVal("()"), Val.s(hv))))
+            conds.append(z3.Select(Val.dkeys(result), k) == want)
+            conds.append(z3.Implies(want, z3.Select(Val.dvals(result), k) == hv))
+            count = count + z3.If(want, 1, 0)
+        conds.append(Val.dsize(result) == count)
+        I.oblige(self.name("inherits_exactly_the_set_and_safe_variables_with_the_hosts_values"), z3.And(conds),
+                 watch={"host_env": self.env, "result": result})
+
+
 class DefaultEnvModular(Contract):
     key = f"{ENVMOD}::get_default_environment"
 
@@ -442,7 +490,7 @@ class C20(Check):
             "builtins.open": x_open, "json.load": x_json_load, "anyio.run": x_anyio_run, "os.system": x_noop,
             "anyio.open_process": E.is_async(x_open_process), "anyio.create_task_group": x_create_task_group,
             "anyio.create_memory_object_stream": x_create_memory_object_stream,
-            "shutil.which": x_which, "logging.getLogger": x_opaque, "asyncio.create_task": x_opaque, "asyncio.wait_for": E.is_async(x_wait_for),
+            "shutil.which": x_which, "os.environ.get": x_environ_get, "logging.getLogger": x_opaque, "asyncio.create_task": x_opaque, "asyncio.wait_for": E.is_async(x_wait_for),
         })
         ctx.env_class(OPAQUE)
         # cleanup code calls methods of context managers held in a list: any value / any Exception
@@ -460,7 +508,7 @@ class C20(Check):
 
     def contracts(self):
         cs = [LoadConfig(s) for s in ("valid", "missing_file", "invalid_json", "unknown_server")]
-        cs += [SpawnContract()]
+        cs += [SpawnContract(), DefaultEnvironment()]
         cs += [TestServerEntry(), RunCommandEntry()]
         return cs
 
